@@ -27,7 +27,7 @@ enum Cap {
 
 pub fn run(ctx: &mut Ctx) {
     let scratch = Scratch::new();
-    for case in ctx.cases(250, 40_000) {
+    for case in ctx.cases(1_500, 100_000) {
         let mut rng = ctx.rng(case);
         ctx.eval();
         if case % 3 == 2 {
